@@ -95,6 +95,12 @@ def gen_requests(rng, routes, n_per_route, tmp):
         dict(method="PUT", target="/dsns/nodsn/tables/%25zz/rows", headers=J, body=hx('[{"a":1}]'), cred="admin"),
         dict(method="GET", target="/admin/users/?start=-1&limit=abc", headers={}, body="", cred="admin"),
         dict(method="GET", target="/admin/users/?start=1&start=2&limit=99999999999999999999", headers={}, body="", cred="admin"),
+        dict(method="GET", target="/admin/users/?start=-1", headers={"Accept": ["application/vnd.ego.users+json"]}, body="", cred="admin"),
+        dict(method="GET", target="/dsns/?start=-1", headers={"Accept": ["application/vnd.ego.dsns+json"]}, body="", cred="admin"),
+        dict(method="GET", target="/admin/tokens/?start=-1", headers={"Accept": ["application/json"]}, body="", cred="admin"),
+        dict(method="GET", target="/admin/users/?start=7&limit=1", headers={"Accept": ["application/vnd.ego.users+json"]}, body="", cred="admin"),
+        dict(method="GET", target="/dsns/nodsn/begin", headers={}, body="", cred="admin"),
+        dict(method="GET", target="/dsns/d1/begin?expires=zz", headers={}, body="", cred="admin"),
         dict(method="GET", target="/assets/x.txt", headers={"Range": ["bytes=5"]}, body="", cred="none"),
         dict(method="GET", target="", headers={}, body="", cred="none"),
         dict(method="GET", target="/admin/users//", headers={"Authorization": ["Bearer"]}, body="", cred="none"),
@@ -251,9 +257,10 @@ def run_routes(ck, binp, reqs, budget_s):
     skip, t0 = 0, time.time()
     while skip < len(reqs) and time.time() - t0 < budget_s:
         env["VERIF_SKIP_TO"] = str(skip)
+        env["VERIF_BUDGET_S"] = str(int(max(5, budget_s - (time.time() - t0))))
         if os.path.exists(outp):
             os.remove(outp)
-        rc, log = vf.run_bin(binp, "^TestVerifC40$", env, cwd=tmp, timeout=int(max(40, budget_s - (time.time() - t0) + 30)))
+        rc, log = vf.run_bin(binp, "^TestVerifC40$", env, cwd=tmp, timeout=int(budget_s + 240))
         started = -1
         for line in open(outp) if os.path.exists(outp) else []:
             f = line.split()
@@ -265,6 +272,8 @@ def run_routes(ck, binp, reqs, budget_s):
                 results[int(f[1])] = (int(f[2]), int(f[3]), bytes.fromhex(f[4]).decode("utf8", "replace") if f[4] != "-" else "",
                                       bytes.fromhex(f[5].rstrip("-")).decode("utf8", "replace") if len(f) > 5 else "")
         if started >= 0 and started not in results:
+            if "test timed out" in log:            # the harness's own time limit: not an observation about the request
+                break
             deaths.append((started, log[-3000:]))
             results[started] = (-9, 0, "", "")
         nxt = (max(results) + 1) if results else len(reqs)
@@ -457,6 +466,9 @@ def run(ck):
             rq = reqs[i]
             ck.violation("process-died", "the server process died while serving %s %s:\n%s" % (rq["method"], rq["target"][:200], log[-500:]),
                          replay={"request": {k2: rq[k2] for k2 in ("method", "target", "headers", "body", "cred")}})
+    for i, log in deaths:
+        ck.notes.append("process ended without a Go panic while serving %s %s (cred %s); resumed after it" % (
+            reqs[i]["method"], reqs[i]["target"][:120], reqs[i]["cred"]))
     ck.cov["evaluations"] += len(results)
     ck.cov["input_distribution"].update({"requests_planned": len(reqs), "requests_done": len(results), "status_histogram": status_hist,
                                          "setup_statuses (dsn, table, rows)": setup_ok, "tokens (admin,user) lengths": tokens,
